@@ -16,11 +16,16 @@ import (
 	"math/big"
 	"testing"
 
+	"github.com/gmrtd/gmrtd/bac"
+	"github.com/gmrtd/gmrtd/chipauth"
 	"github.com/gmrtd/gmrtd/document"
+	"github.com/gmrtd/gmrtd/iso7816"
+	"github.com/gmrtd/gmrtd/pace"
 	"github.com/gmrtd/gmrtd/verifier"
 	"pgregory.net/rapid"
 
 	"verifharness/chipsim"
+	"verifharness/detrand"
 	"verifharness/evid"
 	"verifharness/issuer"
 	"verifharness/persona"
@@ -390,7 +395,10 @@ func runSession(rt failer, o persona.Opts, libSeed, mseed []byte) {
 		// (3) OID / integer fields
 		if present(&r.DocEx.Session, "AA") {
 			alg := r.DocEx.Session.ActiveAuthResult.Evidence.Algorithm
-			for _, other := range []asn1.ObjectIdentifier{{1, 2, 840, 113549, 1, 1, 1}, {1, 2, 840, 10045, 2, 1}, {1, 2, 840, 113549, 1, 1, 10}, {2, 23, 136, 1, 1, 5}} {
+			for _, other := range []asn1.ObjectIdentifier{{1, 2, 840, 113549, 1, 1, 1}, {1, 2, 840, 10045, 2, 1}, {1, 2, 840, 113549, 1, 1, 10}, {2, 23, 136, 1, 1, 5},
+				// signature-algorithm identifiers of the same key family (not the key-type identifier the evidence records)
+				{1, 2, 840, 10045, 4, 1}, {1, 2, 840, 10045, 4, 3, 1}, {1, 2, 840, 10045, 4, 3, 2}, {1, 2, 840, 10045, 4, 3, 3}, {1, 2, 840, 10045, 4, 3, 4},
+				{1, 2, 840, 113549, 1, 1, 5}, {1, 2, 840, 113549, 1, 1, 11}, {1, 2, 840, 10045, 2}, {1, 2, 840, 10045, 2, 1, 0}} {
 				if other.Equal(alg) {
 					continue
 				}
@@ -405,7 +413,9 @@ func runSession(rt failer, o persona.Opts, libSeed, mseed []byte) {
 		}
 		if present(&r.DocEx.Session, "CAM") {
 			e := r.DocEx.Session.PaceCamResult.Evidence
-			for _, id := range []int{e.ParameterId + 1, e.ParameterId - 1, 12, 13, 0, 31} {
+			for _, id := range []int{e.ParameterId + 1, e.ParameterId - 1, 12, 13, 0, 31,
+				// values that agree with the genuine id in their low bits only
+				e.ParameterId + 256, e.ParameterId + 512, e.ParameterId - 256, e.ParameterId + 65536, e.ParameterId + 1<<32, -e.ParameterId, e.ParameterId | 0x80} {
 				if id == e.ParameterId {
 					continue
 				}
@@ -605,4 +615,90 @@ func authenticatedRegions(p *persona.Persona, file []byte, wrapped77 bool) [][2]
 	}
 	add(p.PKI.DS.TBS, 0)
 	return out
+}
+
+// TestEvidenceAfterFurtherTraffic: the protocol objects used directly (not through reader.ReadDocument,
+// where Chip Authentication is the last thing said to the chip): access control, DG14, Chip
+// Authentication, THEN further protected reads on the same session, then serialisation.  "Evidence
+// captured from a genuine session always verifies" - whatever the session went on to do after capture.
+func TestEvidenceAfterFurtherTraffic(t *testing.T) {
+	evid.RapidCheck(t, 240, 8000, func(rt *rapid.T) {
+		var o persona.Opts
+		o.Seed = rapid.SliceOfN(rapid.Byte(), 8, 8).Draw(rt, "seed")
+		o.Country, o.Layout, o.Trusted, o.Extended = "NL", "TD3", true, true
+		o.Access = rapid.SampledFrom([]string{"BAC", "PACE", "PACE+BAC"}).Draw(rt, "access")
+		o.PaceID = rapid.SampledFrom([]int{12, 13, 10}).Draw(rt, "paceId")
+		o.PaceCipher = rapid.SampledFrom([]mac.Cipher{"3DES", "AES-128", "AES-256"}).Draw(rt, "paceCipher")
+		o.CA = true
+		o.CACurve = rapid.SampledFrom([]string{"P-256", "P-224", "brainpoolP256r1", "P-384", "P-521"}).Draw(rt, "caCurve")
+		o.CACipher = rapid.SampledFrom([]mac.Cipher{"3DES", "AES-128", "AES-192", "AES-256"}).Draw(rt, "caCipher")
+		o.CAKeyID = rapid.Bool().Draw(rt, "caKeyId")
+		o.DGs = []int{11}
+		extra := rapid.IntRange(0, 4).Draw(rt, "reads-after-ca")
+		libSeed := rapid.SliceOfN(rapid.Byte(), 8, 8).Draw(rt, "libSeed")
+		rep := reproOf(o, libSeed)
+		rep["readsAfterCA"] = extra
+		p, err := persona.Build(o)
+		if err != nil {
+			evid.Infra(rt, "persona.Build: %v", err)
+		}
+		chip := p.NewChip()
+		restore := detrand.Install(append([]byte("lib"), libSeed...))
+		defer restore()
+		nfc := iso7816.NewNfcSession(chip)
+		doc := &document.Document{}
+		pass, err := readcheck.Password(p, 0)
+		if err != nil {
+			evid.Infra(rt, "password: %v", err)
+		}
+		step := func(what string, err error) {
+			if err != nil {
+				evid.Fail(rt, "direct-session", rep, "%s against a genuine chip failed: %v", what, err)
+			}
+		}
+		if o.Access == "BAC" {
+			_, err = nfc.SelectAid(chipsim.AidMRTD)
+			step("SELECT application", err)
+			res, err := bac.NewBAC(nfc, doc, pass).DoBAC()
+			if err == nil && (res == nil || !res.Success) {
+				err = fmt.Errorf("no success")
+			}
+			step("BAC", err)
+		} else {
+			ca, err := nfc.ReadFile(0x011C)
+			step("reading EF.CardAccess", err)
+			doc.Mf.CardAccess, err = document.NewCardAccess(ca)
+			step("NewCardAccess", err)
+			res, _, err := pace.NewPace(nfc, doc, pass).DoPACE()
+			if err == nil && (res == nil || !res.Success) {
+				err = fmt.Errorf("no success")
+			}
+			step("PACE", err)
+			_, err = nfc.SelectAid(chipsim.AidMRTD)
+			step("SELECT application", err)
+		}
+		dg14, err := nfc.ReadFile(0x010E)
+		step("reading DG14", err)
+		step("NewDG(14)", doc.NewDG(14, dg14))
+		car, err := chipauth.NewChipAuth(nfc, doc).DoChipAuth()
+		if err == nil && (car == nil || !car.Success || car.Evidence == nil) {
+			err = fmt.Errorf("no successful result with evidence")
+		}
+		step("Chip Authentication", err)
+		for i := 0; i < extra; i++ {
+			fid := []uint16{0x0101, 0x011E, 0x010B, 0x010E}[i%4]
+			_, err := nfc.ReadFile(fid)
+			step(fmt.Sprintf("protected read of %04x after Chip Authentication", fid), err)
+		}
+		ex := document.DocumentEx{Document: *doc}
+		ex.Session.ChipAuthResult = car
+		evid.Case(fmt.Sprintf("direct-session/reads-after-ca-%d", extra), true, fmt.Sprintf("%v/%x", rep, o.Seed), rep)
+		off, err := offline(p, &ex)
+		if err != nil {
+			evid.Fail(rt, "direct-session", rep, "offline verification of the serialised session failed: %v", err)
+		}
+		if off.Session.ChipAuthResult == nil || !off.Session.ChipAuthResult.Success {
+			evid.Fail(rt, "direct-session", rep, "Chip Authentication evidence of a genuine session does not verify offline after %d further protected reads on that session (err: %v)", extra, off.Session.ChipAuthErr)
+		}
+	})
 }
